@@ -20,5 +20,6 @@ class EvaluateStep(GeneticStep):
         target_size: int,
         generation: int,
     ) -> Iterator[Individual]:
-        evaluator.evaluate(problem, population)
-        yield from population
+        pool = list(population)  # the population may be a one-shot iterator
+        evaluator.evaluate(problem, pool)
+        yield from pool[:target_size]
